@@ -25,10 +25,13 @@ Open Scope N_scope.
 Record fixes := mk_fixes {
   fx_f09 : bool;   (* StartRtpPub refuses when the group has an input *)
   fx_f10 : bool;   (* delPullSession checks the identity of the session *)
-  fx_f11 : bool    (* a refused RTSP ANNOUNCE / DESCRIBE is not reported as a departed session *)
+  fx_f11 : bool;   (* a refused RTSP ANNOUNCE / DESCRIBE is not reported as a departed session *)
+  fx_f14 : bool;   (* a relay pull that connects after stop_relay_pull disabled it is not attached *)
+  fx_f26 : bool;   (* a deleted customize publisher (or one whose group was disposed) is disposed *)
+  fx_f27 : bool    (* a relay push that connects when no rtmp/rtsp publisher is present is not attached *)
 }.
-Definition pinned_tree : fixes := mk_fixes false false false.
-Definition fixed_tree : fixes := mk_fixes true true true.
+Definition pinned_tree : fixes := mk_fixes false false false false false false.
+Definition fixed_tree : fixes := mk_fixes true true true true true true.
 
 (* configuration of the server: static relay pull on/off, number of relay-push targets *)
 Record config := mk_config { cf_static : bool; cf_npush : nat }.
@@ -494,8 +497,9 @@ Definition depart_sub (st : state) (k : subk) (s n : N) : state * list notif :=
 Definition dispose_group (g : group) : group :=
   let g1 := match g_ps g with Some n => g_set_ps_closed g (Some n) | None => g end in
   del_in (g_set_disposed (g_set_subs g1 [])).
-Definition closed_by_dispose (g : group) : list N :=
-  (match g_rtmp g with Some n => [n] | None => [] end)
+Definition closed_by_dispose (fx : fixes) (g : group) : list N :=
+  (if fx_f26 fx then match g_cust g with Some n => [n] | None => [] end else [])
+  ++ (match g_rtmp g with Some n => [n] | None => [] end)
   ++ (match g_rtsp g with Some n => [n] | None => [] end)
   ++ (match g_ps g with Some n => [n] | None => [] end)
   ++ map snd (g_subs g).
@@ -673,7 +677,10 @@ Definition step_core (fx : fixes) (cf : config) (st : state) (e : event) : state
         | KPsPub => (st, RBad, [])
         | KRtmpPub => let '(st1, ns) := depart_pub (gone_sess st n) PsRtmp (s_stream x) n true in (st1, RNone, ns)
         | KRtspPub => let '(st1, ns) := depart_pub (gone_sess st n) PsRtsp (s_stream x) n true in (st1, RNone, ns)
-        | KCustPub => let '(st1, ns) := depart_pub (gone_sess st n) PsCust (s_stream x) n false in (st1, RNone, ns)
+        | KCustPub =>
+          let hit := match get_group st (s_stream x) with Some g => opt_is (g_cust g) n | None => false end in
+          let st0 := if fx_f26 fx && hit then close_sess st n else st in
+          let '(st1, ns) := depart_pub (gone_sess st0 n) PsCust (s_stream x) n false in (st1, RNone, ns)
         | KRtmpSub => let '(st1, ns) := depart_sub (gone_sess st n) SkRtmp (s_stream x) n in (st1, RNone, ns)
         | KRtspSub => let '(st1, ns) := depart_sub (gone_sess st n) SkRtsp (s_stream x) n in (st1, RNone, ns)
         | KFlvSub => let '(st1, ns) := depart_sub (close_sess (gone_sess st n) n) SkFlv (s_stream x) n in (st1, RNone, ns)
@@ -712,7 +719,7 @@ Definition step_core (fx : fixes) (cf : config) (st : state) (e : event) : state
     | Some a, Some g =>
       match a_state a with
       | AHeld =>
-        if has_in g then
+        if has_in g || (fx_f14 fx && negb (pp_static (g_pp g)) && negb (pp_api (g_pp g))) then
           (* AddRtmpPullSession fails: the session is disposed and reports its end *)
           let g1 := pull_del fx g i in
           (set_att (put_group st s g1) s i AFinished, RNone, [note NPullStop (WAtt s i) g1])
@@ -749,7 +756,12 @@ Definition step_core (fx : fixes) (cf : config) (st : state) (e : event) : state
       end
     | _, _ => (st, RBad, [])
     end
-  | EPushOk s t => let '(st1, r) := push_event st s t false (mk_push true true) in (st1, r, [])
+  | EPushOk s t =>
+    let nopub := match get_group st s with
+                 | Some g => negb (is_some (g_rtmp g)) && negb (is_some (g_rtsp g))
+                 | None => false end in
+    let '(st1, r) := push_event st s t false (if fx_f27 fx && nopub then mk_push false false else mk_push true true) in
+    (st1, r, [])
   | EPushFail s t => let '(st1, r) := push_event st s t false (mk_push false false) in (st1, r, [])
   | EPushDone s t => let '(st1, r) := push_event st s t true (mk_push false false) in (st1, r, [])
   | ETick _ =>
@@ -759,7 +771,7 @@ Definition step_core (fx : fixes) (cf : config) (st : state) (e : event) : state
   | EDispose =>
     if st_disposed st then (st, RBad, [])
     else
-      let closed := flat_map (fun sg => closed_by_dispose (snd sg)) (st_groups st) in
+      let closed := flat_map (fun sg => closed_by_dispose fx (snd sg)) (st_groups st) in
       let ss := fold_left (fun acc n => upd_sess n s_set_closed acc) closed (st_sess st) in
       let gs := map (fun sg => (fst sg, dispose_group (snd sg))) (st_groups st) in
       (st_set_disposed (st_set_sess (st_set_groups st gs) ss), RNone, [])
@@ -769,7 +781,7 @@ Definition step_core (fx : fixes) (cf : config) (st : state) (e : event) : state
     | Some x =>
       match s_kind x with
       | KRtmpPub => if s_gone x || s_closed x then (st, RBad, []) else (st, RMedia (deliver st (s_gid x)), [])
-      | KCustPub => if s_acc x then (st, RMedia (deliver st (s_gid x)), []) else (st, RBad, [])
+      | KCustPub => if s_acc x && negb (s_closed x) then (st, RMedia (deliver st (s_gid x)), []) else (st, RBad, [])
       | _ => (st, RBad, [])
       end
     end
